@@ -35,4 +35,7 @@ def check(ctx, run):
                            'the parser', 'ill-formed input is silently repaired (U+FFFD substituted) instead of being rejected with an error',
                            only=lambda p_: p_.startswith(('util::', 'parser::', 'jsonpath::parser::', 'keypath::')))
     textparser.r02_3(ctx, run, rule='R09.6/R02.3')
+    import boundaries
+    _bf = lambda p_: p_.startswith(('jsonpath::parser::', 'util::'))
+    boundaries.check(ctx, run, 'R09.13', [p_ for p_ in sorted(boundaries.load_baseline() or {}) if _bf(p_)], 'the JSONPath scanner rejects input')
     return report.finish(run, level='other', explanation=EXPLANATION, assumptions=["nom 7 contracts: separated_list1 yields >= 1 element; complete parsers never return Incomplete", "A3"])
